@@ -138,6 +138,20 @@ Inductive outcome := OutOk (rows : list (string * Z * Z)) | OutErr (k : string).
 Definition outcome_of {T} (r : res T) (d : T -> list row) : outcome :=
   match r with Ok x => OutOk (map out_row (d x)) | Err k => OutErr (errkind_name k) end.
 
+(** components as rows: i/kind, i/id, i/t1, i/t2 (tag indexes), i/v/t *)
+Definition idx_of {A} (beq : A -> A -> bool) (l : list A) (a : A) : Z :=
+  (fix go l n := match l with [] => (-1)%Z | b :: l => if beq a b then n else go l (n + 1)%Z end) l 0%Z.
+Definition energy_rows (e : Energy) : list row :=
+  match e with
+  | EUsed i c s v _ => [("kind", qz 0); ("id", qz i); ("t1", qz (idx_of Carrier_beq all_carriers c)); ("t2", qz (idx_of Service_beq all_services s))] ++ vc "v" v
+  | EProd i p v _ => [("kind", qz 1); ("id", qz i); ("t1", qz (idx_of ProdSource_beq all_prodsources p)); ("t2", qz 0)] ++ vc "v" v
+  | EAux i s v _ => [("kind", qz 2); ("id", qz i); ("t1", qz (idx_of Service_beq all_services s)); ("t2", qz 0)] ++ vc "v" v
+  | EOut i s v _ => [("kind", qz 3); ("id", qz i); ("t1", qz (idx_of Service_beq all_services s)); ("t2", qz 0)] ++ vc "v" v
+  end.
+Fixpoint data_rows_from (n : nat) (l : list Energy) : list row :=
+  match l with [] => [] | e :: l => pre (nat_str n) (energy_rows e) ++ data_rows_from (S n) l end.
+Definition dump_data (l : list Energy) : list row := data_rows_from 0 l.
+
 (** input helpers used by generated case files *)
 Definition Q (n : Z) (d : positive) : Qc := qfrac n d.
 Definition QL (l : list (Z * positive)) : list Qc := map (fun p => qfrac (fst p) (snd p)) l.
